@@ -9,6 +9,7 @@ Decided clauses:
        crypto_sign_ed25519_open zeroes its outputs on failure (C02 R2.4/R2.5 instances).
   R6.2 key generation from a seed and signing (plain and pre-hashed) cannot reach a random
        source, an entropy/time external, or any store to / load from process-global mutable state.
+  R6.7 in seed_keypair, once pk is written, sk[32..64) is only written by the copy from pk (pk == sk + 32 is the in-place layout).
   R6.6 every limb sc25519_muladd / sc25519_reduce pack into the scalar bytes (except the top one) is the remainder of its own carry step.
   R6.5 the Ed25519 -> X25519 key conversions read their input completely before the first write through the output.
   R6.4 combined-mode crypto_sign moves the message to sm + 64 first and hands *that copy* to the detached signer, on every path:
@@ -142,6 +143,47 @@ def run(ctx, chk):
     # R, A, S into sm[0..64) in between): shared with C13 R13.1
     from . import c13
     c13.sign_move_rule(prog, chk, "R6.4")
+    # ---- R6.7 key generation with the public key written in place (pk == sk + 32, the layout of the secret key itself): once the public key
+    # has been written through pk, the only write to sk[32..64) is the copy *from pk* - anything else (a wipe of the scratch use of sk, a
+    # copy from elsewhere) destroys the public key the caller asked for when the two buffers coincide
+    skp = prog.need("crypto_sign_ed25519_seed_keypair", rule="R6.7")
+    n67 = 0
+    for p in cm.paths(prog, skp):
+        if p.kind != "ret":
+            continue
+        wr = [e for e in p.events if e.kind == "call" and e.callee[0] in ("fn", "ext") and e.args and T.root(e.args[0]) == ("arg", 0)
+              and (e.callee_name() or "").endswith("tobytes")]
+        if not wr:
+            continue
+        n67 += 1
+        bad = None
+        for e in p.events[wr[-1].idx + 1:]:
+            if e.kind == "store":
+                dst, ln, src = e.addr, e.size, None
+            elif e.kind == "call" and (e.callee_name() or "") in ("memmove", "memcpy", "llvm.memcpy.p0i8.p0i8.i64", "llvm.memmove.p0i8.p0i8.i64"):
+                dst, src = e.args[0], e.args[1]
+                ln = e.args[2][1] if e.args[2][0] == "c" else None
+            elif e.kind == "call" and (e.callee_name() or "") in ("sodium_memzero", "memset", "llvm.memset.p0i8.i64", "explicit_bzero"):
+                dst, src = e.args[0], None
+                la = e.args[-1] if (e.callee_name() or "") != "llvm.memset.p0i8.i64" else e.args[2]
+                if (e.callee_name() or "") == "memset":
+                    la = e.args[2]
+                ln = la[1] if la[0] == "c" else None
+            else:
+                continue
+            if T.root(dst) != ("arg", 1):
+                continue
+            off = 0 if dst == ("arg", 1) else (dst[2] if dst[0] == "gep" and not dst[3] else None)
+            overlaps = off is None or ln is None or (off < 64 and off + ln > 32)
+            if overlaps and not (src is not None and T.root(src) == ("arg", 0)):
+                bad = e
+                break
+        chk.ob("R6.7", skp, "after the public key is written through pk, sk[32..64) is only written by the copy from pk", bad is None,
+               loc=skp.loc(bad.iid) if bad is not None else skp.loc(wr[-1].iid),
+               detail="" if bad is None else "%s at %s writes sk[32..64) with something else than pk: with pk == sk + 32 (the key pair generated in "
+               "place) the public key just computed is destroyed" % (bad.callee_name() if bad.kind == "call" else "store", skp.loc(bad.iid)),
+               path=None if bad is None else p, key="R6.7 seed_keypair in-place")
+    chk.floor("R6.7", "returning paths of crypto_sign_ed25519_seed_keypair", n67, 1)
     # ---- R6.6 S = (r + h * a) mod L is encoded from fully carried limbs (E12 family): every limb of sc25519_muladd / sc25519_reduce
     # that is packed into the 32 output bytes, except the top one, is the remainder of its own carry step
     from .. import knownbits
